@@ -61,6 +61,13 @@ func dateTable() []time.Time {
 		around(s)
 	}
 	out = append(out, time.Unix(minSec, 1e6), time.Unix(maxSec, 999e6))
+	// the same instants seen from other zones: near the edges of the range the LOCAL year is 0 or 10000
+	east, west := time.FixedZone("east", 14*3600), time.FixedZone("west", -12*3600)
+	for _, s := range []int64{minSec + 1, minSec + 3600, minSec + 11*3600, minSec + 86400, maxSec - 1, maxSec - 3600, maxSec - 13*3600, maxSec - 86400, 0, 1500000000} {
+		for _, ms := range []int64{0, 7} {
+			out = append(out, time.Unix(s, ms*1e6).In(east), time.Unix(s, ms*1e6).In(west), time.Unix(s, ms*1e6).UTC())
+		}
+	}
 	// sub-millisecond precision
 	out = append(out, time.Unix(1500000000, 123456789), time.Unix(-1500000000, 123456789), time.Unix(1<<33, 999999), time.Unix(-100, 500000001), time.Unix(0, 1), time.Unix(-1, 999999999))
 	return out
